@@ -164,3 +164,18 @@ Proof.
   - left. exact Hn.
   - right. destruct Hr as [st2 [pre [n [post [_ [Hf [_ [Hl _]]]]]]]]. exists n. eexists. split; [exact Hl|exact Hf].
 Qed.
+
+(* never a panic under the extended semantics either, provided additionally that the Init methods of the
+   post-processor components issue no lookups (a lookup from there creates a component during PrepareComponents,
+   under an incomplete pipeline: the class of known finding KF-C05a) *)
+From IocVerif Require Import Proofs.FactoryXNoPanic.
+Theorem c09_no_panic_extended : forall s x,
+  procs_pointless_b (normalise repaired s) = true -> procs_quiet_b (normalise repaired s) x = true ->
+  settled_b (normalise repaired s) = true ->
+  match snd (run_xt repaired s x) with Fail FPanic _ => False | _ => True end.
+Proof.
+  intros s x Hp Hq Hs. apply (run_core_xt_nopanic repaired (normalise repaired s) x eq_refl eq_refl).
+  - apply procs_pointless_b_sound. exact Hp.
+  - apply procs_quiet_b_sound. exact Hq.
+  - apply settled_b_sound. exact Hs.
+Qed.
